@@ -3,8 +3,11 @@
 proof:   Props/C11.lean -- marked_exact (+_x86/_a64/_between/_sem), no_marker_whole, start_only, end_only,
          decoy_not_marker, mov_without_bytes, lines_denotation, select_lines_exact, three_ways_select,
          numbering theorems; all literals regenerated from the source (Gen/MarkerConsts).
+         Props/C11Pipeline.lean -- the composed pipeline (selection o graph o critical path o LCD o column sums):
+         analysis_renumber_invariant, noise_transparent, three_ways_same at the level of the numeric analysis.
 tie:     translator + correspondence of the model with reduce_to_section / find_marked_kernel_* /
-         get_line_range / parse_file numbering / int() on generated inputs (real parsers produce the lines).
+         get_line_range / parse_file numbering / int() on generated inputs (real parsers produce the lines);
+         harness/pipeline.py: the whole analysis of the real CLI path under --fixed vs the driver op pipe.run.
 search:  oracle by construction on the real code: files laid out as prologue+start+body+end+epilogue
          (every marker style, decoys, both ISAs) must select exactly the body; --lines strings must denote
          exactly the named numbers; end-to-end metamorphic runs of osaca.osaca.run: marked file ==
@@ -19,6 +22,7 @@ import sys
 
 from harness import core
 from harness import c11_lib as L
+from harness import pipeline
 from harness.core import esc
 
 TRUSTED = [
@@ -27,7 +31,11 @@ TRUSTED = [
     "harness/c11_lib.py abstraction of InstructionForm to (number, mnemonic, comment, directive, operand kinds) using the "
     "real parser's normalize_imd / get_full_reg_name; generators; canonicalisation; the diff",
     "modelled, not verified: the pyparsing grammars (the real parsers produce every line the model sees), Python int(), "
-    "str.strip/split/replace on ASCII; the numeric analysis itself (covered only by the metamorphic runs on the real code)",
+    "str.strip/split/replace on ASCII",
+    "harness/pipeline.py: capture of the parsed file / kernel / KernelDG by wrapping BaseParser.parse_file and "
+    "Frontend.full_analysis, encoding of the implementation's per-instruction semantic data (dgenc), comparison with 1e-9; "
+    "the per-instruction data (operand roles, latency, throughput, uniform pressure) are inputs of the pipeline model "
+    "(modelled and tied by C03Roles, C07, C08, C01); the optimal-throughput balancer is not part of it (--fixed)",
 ]
 TOL = 1e-9
 ISA_SPELLINGS = {"x86": ["x86", "X86"], "aarch64": ["aarch64", "AArch64", "AARCH64"]}
@@ -699,8 +707,8 @@ def part_e2e(ctx, archs, per_isa, shift_every):
 # =========================================================================== driver of the check
 def run(ctx):
     ctx.assumptions = TRUSTED
-    ctx.prove(["MarkerConsts"], ["OsacaVerif.Props.C11"])
-    ctx.thorough_recheck(["OsacaVerif.Props.C11"])
+    ctx.prove(["MarkerConsts", "Consts", "RegTables"], ["OsacaVerif.Props.C11", "OsacaVerif.Props.C11Pipeline"])
+    ctx.thorough_recheck(["OsacaVerif.Props.C11", "OsacaVerif.Props.C11Pipeline"])
     thorough = ctx.tier == "thorough"
     if thorough:
         archs = [a for a in core.shipped_archs()]
@@ -719,12 +727,14 @@ def run(ctx):
     part_numbering(ctx, (600 if thorough else 120) * boost, parsers)
     part_select(ctx, (4000 if thorough else 800) * boost, (2000 if thorough else 400) * boost, parsers, mu)
     part_lines(ctx, (3000 if thorough else 400) * boost, O)
+    pipeline.run_pipeline_correspondence(ctx, (100 if thorough else 12) * boost, archs)
     part_e2e(ctx, archs, None if thorough else 8, 4 if thorough else 3)
     ctx.cov["evaluations"] = sum(ctx.counts.get(k, 0) for k in ("selection_files", "lines_strings", "numbering_files", "e2e_runs",
-                                                               "int_texts"))
+                                                               "int_texts", "pipeline_runs"))
     ctx.cov["distinct_nontrivial"] = ctx.counts.get("selection_oracle_checked", 0) + ctx.counts.get("lines_wellformed", 0) + \
-        ctx.counts.get("e2e_runs", 0)
-    ctx.cov["traces_validated_against_impl"] = ctx.counts.get("selection_files", 0) + ctx.counts.get("lines_strings", 0)
+        ctx.counts.get("e2e_runs", 0) + ctx.counts.get("pipeline_compared", 0)
+    ctx.cov["traces_validated_against_impl"] = ctx.counts.get("selection_files", 0) + ctx.counts.get("lines_strings", 0) + \
+        ctx.counts.get("pipeline_compared", 0)
     ctx.cov["rule"] = ("generated files prologue+start+body+end+epilogue (all marker styles, decoys, both ISAs) through the real "
                        "parsers; --lines strings; shipped kernels x models in five to six variants; non-trivial = inputs with an "
                        "oracle (layout known by construction / well-formed spec / metamorphic pair)")
@@ -734,11 +744,11 @@ def run(ctx):
 def replay(ctx, path):
     rep = json.load(open(path))["replay"]
     kind = rep.get("kind")
-    if kind not in ("reduce", "lines", "numbering", "e2e", "blank-parse"):
+    if kind not in ("reduce", "lines", "numbering", "e2e", "blank-parse", "pipeline"):
         print("replay names a broken theorem/correspondence, not an input:", json.dumps(rep)[:800])
         ctx.cleanup()
         return 1
-    archs = [rep["arch"]] if kind == "e2e" else []
+    archs = [rep["arch"]] if kind in ("e2e", "pipeline") else []
     ctx.env = core.Env("C11", archs=archs, copy_models=bool(archs))
     ctx.env.activate()
     import osaca.osaca as O
@@ -746,7 +756,12 @@ def replay(ctx, path):
     from osaca.parser import ParserAArch64, ParserX86ATT
 
     rc = 1
-    if kind == "reduce":
+    if kind == "pipeline":
+        import warnings
+
+        warnings.filterwarnings("ignore")
+        rc = pipeline.replay_pipeline(ctx, rep)
+    elif kind == "reduce":
         isa = "x86" if rep["isa"].lower() == "x86" else "aarch64"
         p = ParserX86ATT() if isa == "x86" else ParserAArch64()
         got, _ = impl_reduce(mu, p.parse_file(rep["text"]), rep["isa"], isa)
